@@ -17,7 +17,7 @@ CLAIM = ("REDUCED CLAIM (the end-to-end ICP accuracy clause is not claimed, DESI
          "equals the truncation of log(1-p)/log(1-w^s). Ransac::estimateModel against a nondeterministic model stub: fails without "
          "drawing when there are too few points, succeeds iff some consensus exceeds the sample size, refits exactly once on success, "
          "draws at most 1000 times")
-BOUNDS = dict(quick="countInliers: N = 6, 7 correspondences (up to 1 duplicate target), previous consensus 0 or 6; iterations: 6..400 points, sample size 3 and 4, two updates; protocol: 5, 8, 12 points with 0, 2, 3 free draw/count results",
+BOUNDS = dict(quick="countInliers: N = 6, 7 correspondences (up to 1 duplicate target), previous consensus 0, 6 or 7; iterations: 6..400 points, sample size 3 and 4, two updates; protocol: 5, 8, 12 points with 0, 2, 3 free draw/count results",
               thorough="N up to 10 with up to 3 duplicate targets, previous consensus up to 8; protocol with 4 free rounds")
 ASSUMPTIONS = ["exact reals; coordinates in [-50,50], model entries in [-2,2] / [-50,50], sigma in [1e-3,10]",
                "bookkeeping state is set through the members (harness compiled with -fno-access-control): one inductive step covers histories of any length",
@@ -30,7 +30,7 @@ def entries(tier):
     quick = tier == "quick"
     cap = 30 if quick else 200
     es = []
-    plan = [(6, 0, 0), (7, 0, 6), (7, 1, 0)] if quick else [(6, 0, 0), (6, 0, 6), (7, 0, 6), (7, 1, 0), (8, 0, 7), (8, 2, 6), (9, 1, 8), (10, 3, 6)]
+    plan = [(6, 0, 0), (7, 0, 6), (7, 0, 7), (7, 1, 0)] if quick else [(6, 0, 0), (6, 0, 6), (7, 0, 6), (7, 1, 0), (8, 0, 7), (8, 2, 6), (9, 1, 8), (10, 3, 6)]
     for n, dup, best in plan:
         es.append(Entry("c06_count_inliers_d2", params=dict(n=n, dup=dup, best=best), cap=cap, kinds=("check", "witness", "mem", "abort")))
     es.append(Entry("c06_count_inliers_h2", params=dict(n=7, dup=1, best=6), cap=cap, kinds=("check", "witness", "mem", "abort")))
